@@ -32,7 +32,7 @@ func otherSpelling(query *Query, row Map, name string) (string, bool) {
 		}
 	case len(query.alias) > 0:
 		if _, ok := row[query.alias].(Map); ok && len(row) <= 2 {
-			return query.alias + "." + name, true
+			return qualifiedName(query.alias, name), true
 		}
 	}
 	return "", false
@@ -128,8 +128,8 @@ func ValueOf(query *Query, current Map, any any) (any, error) {
 					}
 				case len(query.alias) > 0:
 					// (inside EXISTS the row also carries the outer row's columns)
-					if row, ok := current[query.alias].(Map); ok {
-						return ExecReader(row, name)
+					if _, ok := current[query.alias].(Map); ok {
+						return ExecReader(current, qualifiedName(query.alias, name))
 					}
 				}
 			}
